@@ -3,7 +3,7 @@ PROP = {
     'module': 'UmProps.C11',
     'gen_modules': [],
     'streams': [{'name': 'barrier', 'harness': 'umh_barrier', 'driver': 'barrier',
-                 'timeout': {'quick': 600, 'thorough': 2400}}],
+                 'timeout': {'quick': 900, 'thorough': 3000}}],
     'assumptions': [
         'sequential consistency: every shared access of src/proxy/blocking.rs and src/common/biatomic.rs is '
         'Ordering::SeqCst, so the interleaving semantics of the model is exact for them',
